@@ -52,6 +52,7 @@ def run(ctx):
     for b in (A1, AN, C1, CN):
         ctx.saw(b)
 
+    _r6_option_condition_is_equality(ctx, C1)
     # ---------------- R2: first matching sibling wins (both in apply and in check)
     for body, callee, tag in ((AN, A1.id, "apply"), (CN, C1.id, "check")):
         T = terms(P, body)
@@ -263,6 +264,55 @@ def _assigns_const(body, cfg, tgt, value, loop):
             if s["p"] == (0,) and "rv" in s and s["rv"]["k"] == "use" and s["rv"]["op"].get("k", {}).get("bool") is value:
                 return True
     return False
+
+
+def _r6_option_condition_is_equality(ctx, C1):
+    """R6 a `match-<option>` condition holds when the option's value *is* the configured value (or, for `null`, when the option is
+    absent): in the loop over the option conditions the decision is set to true only on the true edge of an equality test or where the
+    request was found not to carry the option, and it is never the result of a looser comparison (a prefix, a substring, a
+    case-folded match). A reservation keyed on host-name `nas` is otherwise also `nas-backup`'s."""
+    P = ctx.P
+    b = C1
+    T = terms(P, b)
+    cfg = cfg_of(b)
+    loops = [cfg.natural_loop(e) for e in cfg.back_edges()]
+    failed = {bb for bb, idx, st in b.stmts() if st["p"] == (0,) and st.get("rv") and st["rv"]["k"] == "agg" and st["rv"].get("variant") == "MatchFailed"}
+    n = 0
+    for sbb, tm in b.terms():
+        if tm["k"] != "switch" or not any(sbb in l for l in loops):
+            continue
+        pl = op_place(tm["discr"])
+        if pl is None or len(pl) != 1 or b.local_ty(pl[0]) != "bool":
+            continue
+        loop = min((l for l in loops if sbb in l), key=len)
+        fe = [t for v, t in cfg.switch_edges(sbb) if v == 0]
+        if not fe or not all(t in failed for t in fe):
+            continue
+        D = pl[0]
+        defs_true = [(bb, st) for bb, idx, st in b.stmts() if tuple(st["p"]) == (D,) and st.get("rv") and st["rv"]["k"] == "use" and
+                     isinstance(st["rv"]["op"].get("k"), dict) and st["rv"]["op"]["k"].get("bool") is True]
+        other = [(bb, st["sp"], "assignment") for bb, idx, st in b.stmts() if tuple(st["p"]) == (D,) and st.get("rv") and not (
+            st["rv"]["k"] == "use" and isinstance(st["rv"]["op"].get("k"), dict) and isinstance(st["rv"]["op"]["k"].get("bool"), bool))]
+        other += [(bb, t2["sp"], (callee_name(t2) or "?").rsplit("::", 1)[-1]) for bb, t2 in b.calls() if tuple(t2["dest"]) == (D,) and
+                  not (callee_name(t2) or "").endswith("::eq")]
+        if not defs_true and not other:
+            continue
+        n += 1
+        eq_true = []
+        for b2, d, te, fe2 in bool_switches(P, b, lambda d: d[0] == "call" and str(d[1]).endswith("::eq")):
+            if b2 in loop:
+                eq_true += te
+        absent = []
+        for b2, t2 in b.terms():
+            if t2["k"] == "switch" and b2 in loop:
+                d = norm(T.at_term(t2["discr"], b2))
+                if d[0] == "discr" and norm(d[1])[0] == "call" and str(norm(d[1])[1]).endswith("::get"):
+                    absent += discr_edges(cfg, b2, 0)
+        bad = [(bb, st["sp"]) for bb, st in defs_true if not (edge_dominated(cfg, eq_true, bb) or edge_dominated(cfg, absent, bb))]
+        ctx.check(not bad and not other, "R6", "option-condition-holds-on-equality-only", ctx.where(b, (bad or other or [(0, tm.get("sp"))])[0][1]),
+                  "in the loop over the option conditions the decision becomes true outside an equality test (%d place(s)) or is computed by "
+                  "something else (%s)" % (len(bad), [x[2] for x in other] or "nothing"))
+    ctx.floor("R6", "decision of the option-condition loop", n, 1)
 
 
 def _r5(ctx):
